@@ -200,13 +200,25 @@ class PreparedFns(dict):
         self._prep(k)
         return dict.get(self, k, d)
 
+    def _inlined_everywhere(self, k):
+        """a new helper function (not among the known functions) that has callers: it is analysed inside its callers"""
+        from . import norm
+        if k in norm.known_fns():
+            return False
+        if not hasattr(self, "_called"):
+            self._called = set(norm.callers_of(self._crate).keys())
+        fl = dict.__getitem__(self, k)
+        return k in self._called and len(fl) == 1 and fl[0].get("kind") in ("Fn", "AssocFn")
+
     def items(self):
         for k in list(dict.keys(self)):
-            yield k, self[k]
+            if not self._inlined_everywhere(k):
+                yield k, self[k]
 
     def values(self):
         for k in list(dict.keys(self)):
-            yield self[k]
+            if not self._inlined_everywhere(k):
+                yield self[k]
 
 
 class Crate:
